@@ -319,8 +319,11 @@ def to_cent_voicing(
 
     Pure: no input array is modified.  Empty series (undocumented in the
     library, whose measures define 0 for empty input): an empty reference gives
-    four empty arrays; an empty estimate is zero-padded to the reference
-    length."""
+    four empty arrays (the estimate is truncated to the reference length, so
+    every measure is 0 by its empty-input rule).  An empty estimate with a
+    non-empty reference is zero-padded to the reference length, but since the
+    measures' "empty estimate -> 0" rule suggests a different reading, that
+    case is reported with margin 0 (undecided)."""
     if kind != "linear":
         raise NotImplementedError("oracle models kind='linear' only")
     rt, rf = _floats(ref_time), _floats(ref_freq)
@@ -354,6 +357,8 @@ def to_cent_voicing(
 
     rt, ref_cent, ref_voicing = prepare(rt, rf, rr)
     et, est_cent, est_voicing_ = prepare(et, ef, ev)
+    if rt and not et:
+        margin = 0.0  # documented behaviour undecided, see docstring
 
     if not rt:
         # nothing to evaluate against: estimate truncated to length 0
